@@ -147,6 +147,7 @@ type JLOpts struct {
 	Fresh      bool // random scheduler: a pass only begins when both caches are up to date
 	Slow       bool   // random scheduler: kubelets are slow to start containers (tasks stay Pending for long)
 	Flaky      bool   // random scheduler: nodes go down often
+	Delivered  bool   // the Job's add event is already delivered when the run starts (initial state of spec/JobLife.tla)
 	ForeignBy  string // controller owner of the foreign Pod: "" (ReplicaSet) | "job" (another Job object of the same name) | "none"
 }
 
@@ -233,6 +234,10 @@ func NewJL(o JLOpts, t *sw.Tracer, run int) *JL {
 	}
 	j.build()
 	for j.W.Inf.Pods.Deliver() {
+	}
+	if o.Delivered {
+		for j.W.Inf.Jobs.Deliver() {
+		}
 	}
 	return j
 }
@@ -758,6 +763,10 @@ type JLSummary struct {
 	Labels      map[string]int `json:"labels"`
 	DrainFailed int            `json:"drain_failed"`
 	Faults      int            `json:"faults"`
+	Compared    int            `json:"compared"`  // replayed steps whose resulting abstract state was compared with the specification's
+	Drift       int            `json:"drift"`     // ... and differed
+	DriftAt     map[string]int `json:"drift_at"`  // by step label (first drift of a run only)
+	DriftSample []string       `json:"drift_sample"`
 }
 
 func randJLOpts(rng *rand.Rand, skew, fresh bool) JLOpts {
@@ -793,7 +802,7 @@ func JobLifeMain(args []string) (interface{}, error) {
 	bw := bufio.NewWriterSize(f, 1<<20)
 	defer bw.Flush()
 	tr := sw.NewTracer(bw)
-	sum := &JLSummary{DivergedAt: map[string]int{}, Labels: map[string]int{}}
+	sum := &JLSummary{DivergedAt: map[string]int{}, Labels: map[string]int{}, DriftAt: map[string]int{}}
 	rng := rand.New(rand.NewSource(*seed))
 	apply := func(j *JL, l Label) bool {
 		if !j.Apply(l) {
@@ -854,16 +863,32 @@ func JobLifeMain(args []string) (interface{}, error) {
 			if err := json.Unmarshal(sc.Bytes(), &s); err != nil {
 				return nil, fmt.Errorf("schedule %d: %v", r, err)
 			}
+			s.Cfg.Delivered = true
 			j := NewJL(s.Cfg, tr, r)
 			j.emit("Reset", Label{A: "Reset"}, nil)
-			for _, l := range s.Steps {
+			drifted := false
+			for si, l := range s.Steps {
 				if l.A == "Kubelet" || l.A == "KubeletGone" || l.A == "ExternalDelete" || l.A == "NodeDown" {
 					l.K = j.podName(l.I, l.R)
 				}
+				exp := l.E
+				l.E = nil
 				if !apply(j, l) {
 					sum.Diverged++
 					sum.DivergedAt[l.A]++
 					break
+				}
+				if exp != nil && !drifted {
+					got := j.digest()
+					sum.Compared++
+					if got != *exp {
+						drifted = true
+						sum.Drift++
+						sum.DriftAt[l.A+":"+l.X]++
+						if len(sum.DriftSample) < 8 {
+							sum.DriftSample = append(sum.DriftSample, fmt.Sprintf("run %d step %d %s %s: spec %+v real %+v", r, si, l.A, l.X, *exp, got))
+						}
+					}
 				}
 			}
 			if !j.Finale(3000) {
@@ -878,6 +903,21 @@ func JobLifeMain(args []string) (interface{}, error) {
 	sum.Lines = tr.Lines
 	_ = context.Background
 	return sum, nil
+}
+
+// digest projects the real state to the fields of Exp.
+func (j *JL) digest() Exp {
+	st := j.State()
+	e := Exp{Ex: st.Job.Ex, Fin: st.Job.Kind == "Finished", Res: st.Job.Result, Refs: len(st.Job.Refs)}
+	for _, p := range st.Pods {
+		if p.Mine {
+			e.Pods++
+			if p.Del != 0 {
+				e.Dl++
+			}
+		}
+	}
+	return e
 }
 
 // podName returns the deterministic task name of attempt r of index i.
